@@ -4,7 +4,8 @@
 
   Quirks kept: the default field of a parenthesised group is the *raw* (still escaped) field text;
   `visit_multiterm` uses it as is while `visit_clause` unescapes it; the reserved-field tests compare
-  the raw text; a range whose two brackets differ in kind panics (`"invalid range comparison"`).
+  the raw text.  (No arm of the visitor panics on a token tree the grammar produces; `VOut.panic` /
+  `ParseOut.panic` are kept as outcomes so that a panic of the real parser still has a name.)
 -/
 import VrlModel.Search.Grammar
 import VrlModel.Search.Lucene
@@ -50,10 +51,9 @@ def visitValue (F : FloatLib) (f : Str) (v : PValue) : VOut QNode :=
   | .pfx raw => .ok (.leaf (.pfx (unescape f) (visitPrefix raw)))
   | .glob raw => .ok (.leaf (.wildcard (unescape f) (unescape raw)))
   | .range lsq v1 v2 rsq =>
-    -- (Gte, Lte) → inclusive, (Gt, Lt) → exclusive, anything else panics
-    if lsq = rsq then
-      .ok (.leaf (.range (unescape f) (CV.ofText F v1) lsq (CV.ofText F v2) rsq))
-    else .panic
+    -- `(lc == Comparison::Gte, lv, rv, rc == Comparison::Lte)`: each bound is inclusive or exclusive
+    -- on its own
+    .ok (.leaf (.range (unescape f) (CV.ofText F v1) lsq (CV.ofText F v2) rsq))
   | .cmp op numeric raw =>
     let value := if numeric then CV.ofText F raw else .str (unescape raw)
     .ok (.leaf (.comparison (unescape f) op value))
